@@ -223,6 +223,7 @@ type liveEnv struct {
 type evilLink struct {
 	conn   net.Conn
 	name   gen.Atom
+	id     string // connection id the node assigned in the handshake
 	closed chan struct{}
 }
 
@@ -482,9 +483,8 @@ func dialEvil() (*evilLink, error) {
 		conn.Close()
 		return nil, fmt.Errorf("handshake with V: %w", err)
 	}
-	_ = res
 	conn.SetDeadline(time.Time{})
-	l := &evilLink{conn: conn, name: name, closed: make(chan struct{})}
+	l := &evilLink{conn: conn, name: name, id: res.ConnectionID, closed: make(chan struct{})}
 	go func() {
 		io.Copy(io.Discard, conn)
 		close(l.closed)
@@ -759,6 +759,22 @@ func liveInput(cs caseSpec, idx int) []byte {
 			b = b[:len(b)-rng.Intn(12)%len(b)]
 		}
 		return b
+	case "join":
+		// frames sent on the joined socket before the markers: nothing, a valid frame, or a hostile one
+		switch {
+		case idx == 0:
+			return markerFrame(1, "zz-not-a-marker")
+		case idx%3 == 1:
+			return pickFrame()
+		case idx%3 == 2:
+			f := pickFrame()
+			body := randEdit(rng, f[8:])
+			return fixLen(append(cp(f[:8]), body...))
+		default:
+			b := randBytes(rng, 8+rng.Intn(40))
+			b[0], b[1] = 78, 1
+			return fixLen(b)
+		}
 	case "prng":
 		n := 8 + rng.Intn(60)
 		b := randBytes(rng, n)
@@ -772,6 +788,165 @@ func liveInput(cs caseSpec, idx int) []byte {
 		return b
 	}
 	return nil
+}
+
+// authenticated JOIN exchanges --------------------------------------------------------------------------------
+
+var joinVariants = []string{"unknown-id", "closed-id", "other-peers-live-id", "own-live-id"}
+
+// dialJoin performs a well-formed Join handshake (correct cookie digest) under the given peer name and connection id
+func dialJoin(name gen.Atom, id string) (*evilLink, error) {
+	conn, err := net.DialTimeout("tcp", fmt.Sprintf("127.0.0.1:%d", env.V.Port), 5*time.Second)
+	if err != nil {
+		return nil, err
+	}
+	hs := handshake.Create(handshake.Options{PoolSize: 1})
+	if _, err := hs.Join(stubNode{name: name, creation: time.Now().Unix()}, conn, id, gen.HandshakeOptions{Cookie: "c16-live-cookie"}); err != nil {
+		conn.Close()
+		return nil, err
+	}
+	conn.SetDeadline(time.Time{})
+	l := &evilLink{conn: conn, name: name, id: id, closed: make(chan struct{})}
+	go func() {
+		io.Copy(io.Discard, conn)
+		close(l.closed)
+	}()
+	return l, nil
+}
+
+// liveJoinOne: a socket is joined to the node with an authenticated Join handshake naming a connection id the
+// node does not have / had / has for another peer / has for this peer, then valid and hostile frames follow on
+// that socket. Whether the node accepts the extra link is not judged here (C15), only what the frames do to it.
+func liveJoinOne(ci int, cs caseSpec, idx int, data []byte, a *agg) {
+	variant := joinVariants[cs.Item]
+	mk := func(sig, what string, detail any) {
+		violation(vrec{Case: cs.ID, Idx: idx, Sig: sig, What: what, Hex: hexOf(data), Len: len(data), Detail: detail})
+	}
+	ensureBase := func() bool {
+		if env.link != nil && !env.link.isClosed() {
+			return true
+		}
+		l, err := dialEvil()
+		for try := 0; err != nil && try < 3; try++ {
+			l, err = dialEvil()
+		}
+		if err != nil {
+			return false
+		}
+		env.link = l
+		return true
+	}
+	var name gen.Atom
+	var id string
+	base := false // a Start-established connection of the attacker that must survive (variant other-peers-live-id)
+	env.evilSeq++
+	switch variant {
+	case "unknown-id":
+		name, id = gen.Atom(fmt.Sprintf("eviljoin%d@localhost", env.evilSeq)), lib.RandomString(32)
+	case "closed-id":
+		l, err := dialEvil()
+		if err != nil {
+			a.add("trivial: no link", false, 0)
+			a.extra["watchdog"]++
+			return
+		}
+		name, id = l.name, l.id
+		l.conn.Close()
+		<-l.closed
+		hk.WaitUntil(5*time.Second, func() bool { _, err := env.V.Network().Node(name); return err != nil })
+	case "other-peers-live-id":
+		if !ensureBase() {
+			a.add("trivial: no link", false, 0)
+			a.extra["watchdog"]++
+			return
+		}
+		base = true
+		name, id = gen.Atom(fmt.Sprintf("eviljoin%d@localhost", env.evilSeq)), env.link.id
+	case "own-live-id":
+		if !ensureBase() {
+			a.add("trivial: no link", false, 0)
+			a.extra["watchdog"]++
+			return
+		}
+		name, id = env.link.name, env.link.id
+	}
+	drainMarkers()
+	panics0 := env.V.Cap.Panics.Load()
+	downs0 := ls.downs.Load()
+	progress(ci, idx, data)
+	info := &callInfo{caseIdx: ci, caseID: cs.ID, idx: idx, data: data, marker: "proto.(*connection)"}
+	beginCall(info)
+	a0 := totalAlloc()
+	class := ""
+	incon := ""
+	jl, jerr := dialJoin(name, id)
+	if jerr != nil {
+		class = "join handshake refused"
+	} else {
+		jl.conn.SetWriteDeadline(time.Now().Add(10 * time.Second))
+		markerSeq++
+		want := map[string]bool{}
+		out := cp(data)
+		for q := 1; q <= env.queues; q++ {
+			m := fmt.Sprintf("%s%d-%d", markerPrefix, markerSeq, q)
+			want[m] = true
+			out = append(out, markerFrame(byte(q), m)...)
+		}
+		jl.conn.Write(out)
+		deadline := time.After(20 * time.Second)
+	wait:
+		for len(want) > 0 {
+			select {
+			case m := <-ls.markers:
+				delete(want, m)
+			case <-jl.closed:
+				class = "joined socket closed by the node"
+				break wait
+			case <-deadline:
+				incon = "watchdog: neither the markers arrived nor the joined socket was closed"
+				break wait
+			}
+		}
+		if class == "" && incon == "" {
+			class = "join accepted, frames consumed"
+		}
+		jl.conn.Close()
+	}
+	allocd := totalAlloc() - a0
+	endCall()
+	if env.V.Cap.Panics.Load() > panics0 {
+		a.extra["recovered_panics"] += env.V.Cap.Panics.Load() - panics0
+		class += " (panic recovered in the receive handler)"
+	}
+	events := int64(2)
+	herr := canaryCall()
+	downs := ls.downs.Load() - downs0
+	_, lerr := env.V.Network().Node(env.L.Name())
+	switch {
+	case downs > 0 || lerr != nil:
+		mk("unrelated-connection-dropped", fmt.Sprintf("after a Join (%s) and frames on the joined socket the node reported the legitimate node down (%d down events, lookup error %v)", variant, downs, lerr), nil)
+	case base && env.link.isClosed():
+		mk("unrelated-connection-dropped", fmt.Sprintf("a Join under another peer name naming the live connection id of peer %s, followed by frames, closed that peer's connection", env.link.name), nil)
+	case herr != nil && herr != errWatchdog && !errors.Is(herr, gen.ErrTimeout):
+		mk("canary-call-failed", fmt.Sprintf("a call to the canary over the legitimate connection failed after Join (%s) and frames: %v", variant, herr), nil)
+	case herr != nil:
+		incon = "watchdog: canary call timed out"
+	}
+	if allocd > allocBound(len(data)) {
+		site, stack := allocSiteSince()
+		mk("alloc-amplification/"+site, fmt.Sprintf("Join (%s) plus %d hostile bytes allocated %d bytes in the node process (bound %d)", variant, len(data), allocd, allocBound(len(data))), map[string]any{"alloc_stack": stack})
+		a.add(class+" ALLOC OUT OF PROPORTION", true, events)
+		leaveAfterExpensive(cs.ID, a)
+	}
+	if incon != "" {
+		a.extra["watchdog"]++
+		a.add("trivial: "+incon, false, events)
+		return
+	}
+	if a.sample == nil {
+		a.sample = map[string]any{"idx": idx, "variant": variant, "hex": trunc(hexOf(data), 160), "outcome": class}
+	}
+	a.add(class, true, events)
 }
 
 // one input ----------------------------------------------------------------------------------------------
@@ -1029,7 +1204,11 @@ func childLive() {
 				profBase, sinceBase = profSnapshot(), 0
 			}
 			before := a.extra["expensive"]
-			liveOne(ci, cs, idx, data, a)
+			if cs.Class == "join" {
+				liveJoinOne(ci, cs, idx, data, a)
+			} else {
+				liveOne(ci, cs, idx, data, a)
+			}
 			expensive += int(a.extra["expensive"] - before)
 		}
 		g := a.rec(cs.ID)
@@ -1087,6 +1266,17 @@ func liveJobs() []job {
 		if half < len(cases) {
 			jobs = append(jobs, job{name: "live-" + cfg + "-b", mode: "live", memKB: mem, wall: wall, procs: 4, cases: cases[half:]})
 		}
+	}
+	// authenticated Join handshakes followed by frames
+	var jc []caseSpec
+	for vi, v := range joinVariants {
+		id := "live/default/join/" + v
+		if want(id) {
+			jc = append(jc, caseSpec{ID: id, Target: "live", Opt: "default", Class: "join", Item: vi, N: 12 * m, Only: onlyIdx(id)})
+		}
+	}
+	if len(jc) > 0 {
+		jobs = append(jobs, job{name: "live-join", mode: "live", memKB: mem, wall: wall, procs: 4, cases: jc})
 	}
 	// declared decompressed size: each input may end the child
 	id := "live/default/z-declared-big"
